@@ -88,10 +88,12 @@ def evaluate(case):
         dmk = M.make(case["method"])
         obj = mkpipe(*[T.build(s) for s in case["steps"]], dmk) if case["steps"] else dmk
         res = obj.evaluate(dm)
+        fw = [float(x) for x in (obj.transform(dm) if case["steps"] else dm).weights]
     except Exception as e:  # noqa: BLE001
         return {"error": I.exc_code(e), "exc": repr(e)[:200]}
     extra = {k: M.tolist(res.e_[k]) for k in res.e_ if k != "stages"}
-    return {"alternatives": [str(a) for a in res.alternatives], "values": M.tolist(res.values), "extra": extra}
+    return {"alternatives": [str(a) for a in res.alternatives], "values": M.tolist(res.values), "extra": extra,
+            "final_weights": fw}
 
 
 def both(case):
@@ -140,6 +142,12 @@ def compare(ctx, c, o1, o2, back):
                             if x == x and any(abs(x - t) < 1e-9 for t in ths):
                                 ctx.count("electre_threshold_within_rounding_skipped")
                                 return
+            # ELECTRE2 hands the weights to weights_outrank in the objectives' position (known finding
+            # C08-wor-args-exchanged), where they are compared with == 1: a computed weight within rounding
+            # of 1.0 (MinMaxScaler on weights) makes that comparison a rounding-level tie - skipped
+            if name == "electre2" and any(0 < abs(w - 1.0) < 1e-9 for o in (o1, o2) for w in o["final_weights"]):
+                ctx.count("electre2_weight_within_rounding_of_1_skipped")
+                return
         if v1 != v2:
             ctx.oracle_fail(c, {"oracle": f"{name}: results differ by alternative name", "first": v1, "second": v2})
         return
